@@ -735,6 +735,10 @@ impl Runtime for Rt {
         }
     }
     fn note(&self, kind: u32, arg: usize) {
+        if kind == verif::notes::WAKE_ASYNC || kind == verif::notes::WAKE_SYNC_UNPARK {
+            // right after the final state store: let the owner run before the wake call
+            self.point(Pt::Plain);
+        }
         let t = self.me() as u8;
         let mut g = lock(self);
         g.stamp += 1;
@@ -814,13 +818,18 @@ pub fn new_waker() -> u32 {
     (g.wakers.len() - 1) as u32
 }
 
-/// Called by the harness waker's `wake`.
+/// Scheduling point at the entry of a waker vtable function.
+pub fn waker_point() {
+    let r = rt();
+    if r.managed() {
+        r.point(Pt::Plain);
+    }
+}
+
+/// Called by the harness waker's `wake` (after `waker_point`).
 pub fn waker_wake(wid: u32) {
     let r = rt();
     let managed = r.managed();
-    if managed {
-        r.point(Pt::Plain);
-    }
     let mut g = lock(r);
     if !g.active || wid as usize >= g.wakers.len() {
         return;
